@@ -39,7 +39,8 @@ def signature(b, norm):
 def run(ctx):
     fx, res = ctx.fx, ctx.res
     cb = fx.crate("clap_builder")
-    norm = lambda s: re.sub(r"\b[iu]64\b", "N64", re.sub(r"Ranged[IU]64", "RangedN64", s))
+    # closure numbering and promoted-constant slots are positions inside one function, not behaviour
+    norm = lambda s: re.sub(r"\{closure#\d+\}", "{closure}", re.sub(r"promoted\[\d+\]", "promoted", re.sub(r"\b[iu]64\b", "N64", re.sub(r"Ranged[IU]64", "RangedN64", s))))
     sigs = {}
     for kind, ity in (("I64", "i64"), ("U64", "u64")):
         b = fx.body("<%sRanged%sValueParser as %sTypedValueParser>::parse_ref" % (VP, kind, VP))
